@@ -263,8 +263,12 @@ def check_layout(ctx, case, k, files, tags_api, io=None):
             return
         try:
             idx = json.loads(base64.b64decode(f.get("b64") or ""))
-            mans = idx.get("manifests") or []
-            assert isinstance(mans, list)
+            mans = idx.get("manifests")
+            if not isinstance(mans, list):
+                # (the image index of the OCI image specification REQUIRES manifests to be an array: null does not validate)
+                ctx.violation("index.json of %s does not hold an array of manifests: \"manifests\": %s" % (repo, json.dumps(mans)), rep(repo=repo, index=idx), "C10:index-manifests-not-an-array")
+                return
+            assert idx.get("schemaVersion") == 2
         except Exception as e:
             ctx.violation("index.json of %s does not parse (%s)" % (repo, e), rep(repo=repo), "C10:index-unparseable")
             return
